@@ -159,8 +159,9 @@ def py_reference(case):
                     bad += 1
     full = len(good) // B
     rest = len(good) - full * B
+    used = full * B + (rest if rest > TAIL_MIN else 0)
     return {"nlines": pos, "good": len(good), "full": full, "rest": rest, "bad_selected": bad,
-            "tail_used": rest > TAIL_MIN}
+            "tail_used": rest > TAIL_MIN, "consumed_ids": good[:used]}
 
 
 def nontrivial(case, ref):
@@ -396,7 +397,7 @@ def check(run, replay):
         cases = [replay["case"]]
     else:
         cases = load_corpus("C08")
-        n = 44 if run.tier == "quick" else 420
+        n = 72 if run.tier == "quick" else 420
         fams = ["tail", "tail", "lines", "small", "random", "tail"]
         for i in range(n):
             cases.append(gen_case(run.rng, fams[i % len(fams)] if i < 18 else None))
@@ -433,10 +434,16 @@ def check(run, replay):
         fails = judge(c, r, val, enc)
         # independent observable: the bounded counter of the id column = consumed rows (if the wrapper point vanished)
         cons = r.get("consumed")
-        if cons is not None and not fails:
-            want = ref["full"] * c["B"] + (ref["rest"] if ref["tail_used"] else 0)
-            if len(cons) != want and want < 30000:
-                fails.append(("consumed rows (value counter of the id column)", "%d distinct ids counted, reference %d" % (len(cons), want)))
+        if cons is not None and not fails and len(ref["consumed_ids"]) < 30000:
+            want = {"r%d" % j for j in ref["consumed_ids"]}
+            if set(cons) != want or any(v != 1 for v in cons.values()):
+                d = sorted(set(cons) ^ want, key=lambda x: (len(x), x))[:6]
+                fails.append(("consumed rows (value counter of the id column)",
+                              "%d distinct ids counted, reference %d; differing ids %s" % (len(cons), len(want), d)))
+        if r.get("wrapper_missing"):
+            run.violation("broken-obligation", "correspondence:observation point core_ranking.compute_batch_ranking not found",
+                          found_input=False, extra="batches could not be recorded; only the consumed-id counter, the checkpoint "
+                          "left behind and the final table were compared")
         if fails:
             failing.append((i, fails))
 
@@ -466,7 +473,7 @@ def check(run, replay):
                    "pairwise": r.get("pairwise"), "exit": r.get("exit"), "error": r.get("error"),
                    "traceback": r.get("traceback")}
         run.violation("counterexample", "C08_check on implementation outputs", case=cases[i], impl=summary,
-                      model={"reference": py_reference(cases[i])}, clause="; ".join("%s: %s" % f for f in fails)[:3000])
+                      model={"reference": {k: v for k, v in py_reference(cases[i]).items() if k != "consumed_ids"}}, clause="; ".join("%s: %s" % f for f in fails)[:3000])
     if failing:
         run.obligations[-1] = (run.obligations[-1][0], False, "%d files rejected" % len(failing))
     run.cov["input_distribution"] = hist
